@@ -506,6 +506,11 @@ def main(argv, PROPS):
 
     # 5. verdict
     new_spec_fails = []
+    relevant = re.compile(cfg.get("spec_relevant", "."))
+    foreign = [f for f in spec_fails if not relevant.search(f["spec"])]
+    if foreign:
+        notes.append(f"{len(foreign)} case(s) fail the spec of a sibling property sharing this stream (e.g. {foreign[0]['spec'][:80]}); reported by that property's check")
+    spec_fails = [f for f in spec_fails if relevant.search(f["spec"])]
     for f in spec_fails:
         e = match_known(known, f["stream"], f, f["inp"])
         if e is not None:
